@@ -159,7 +159,6 @@ class ActiveTrailNodes(Contract):
                             "tuple": atom_list("obs", "tuple"), "single": atom("obs1", "str")}[olabel]
                 args = {"self": g, "variables": variables, "observed": observed,
                         "include_latents": Scalar(z3.Const("include_latents", B))}
-                self._theory = None
                 yield f"variables={vlabel},observed={olabel}", args, {}
 
     @staticmethod
@@ -172,10 +171,24 @@ class ActiveTrailNodes(Contract):
         return mem_or_empty(o)
 
     def theory(self, ex, args, E):
-        key = (self.Z(args).get_id(), E.get_id())
-        if getattr(self, "_theory", None) is None or self._theory[0] != key:
-            self._theory = (key, ReachTheory(ex, E, self.Z(args)))
-        return self._theory[1]
+        """Reach theory for (E, Z); Z is looked up modulo extensional equality so that the same observed set built
+        in two ways (e.g. `[X] + list(Z)` in the code, {X} u Z in a caller's contract) shares one relation."""
+        Z = self.Z(args)
+        store = ex.__dict__.setdefault("_reach_theories", [])
+        for (E0, Z0, th) in store:
+            if E0.eq(E) and (Z0.eq(Z) or self._same_set(Z0, Z)):
+                return th
+        th = ReachTheory(ex, E, Z)
+        store.append((E, Z, th))
+        return th
+
+    @staticmethod
+    def _same_set(a, b):
+        x = fresh("x", Atom)
+        s = z3.Solver()
+        s.set("timeout", 1000)
+        s.add(a[x] != b[x])
+        return s.check() == z3.unsat
 
     def starts(self, args):
         v = args["variables"]
@@ -355,9 +368,7 @@ class IsDConnected(Contract):
         g = args["self"]
         x = fresh("x", Atom)
         Z = ActiveTrailNodes.Z(args)
-        # latents empty: is_dconnected calls active_trail_nodes with the default include_latents=False
-        return z3.And(wf_graph(g), N_(g, args["start"].z), z3.ForAll([x], z3.Implies(Z[x], N_(g, x))),
-                      z3.ForAll([x], z3.Not(g.fields["latents"].mem[x])))
+        return z3.And(wf_graph(g), N_(g, args["start"].z), z3.ForAll([x], z3.Implies(Z[x], N_(g, x))))
 
     def snapshot(self, ex, st, args):
         return graph_snapshot(args["self"])
@@ -368,7 +379,11 @@ class IsDConnected(Contract):
         atn = REGISTRY_ATN
         th = atn.theory(ex, {"observed": args["observed"]}, old["_E"])
         s, e = args["start"].z, args["end"].z
-        return result.z == z3.And(z3.Not(th.Z[e]), z3.Or(th.R(s, e, UP), th.R(s, e, DOWN)))
+        # is_dconnected goes through active_trail_nodes(include_latents=False): a latent end node is never reported
+        return result.z == z3.And(z3.Not(th.Z[e]), z3.Or(th.R(s, e, UP), th.R(s, e, DOWN)), z3.Not(old["latents"][e]))
+
+    def make_result(self, ex, st, args):
+        return Scalar(fresh("dconn", B))
 
 
 class GetAncestralGraph(Contract):
